@@ -50,22 +50,30 @@ def f2(x, y):
 _OBJ_CACHE = {}
 
 
+def _try(f, klass):
+    """helper objects must exist even when a (mutated) constructor rejects its own defaults"""
+    try:
+        return f()
+    except Exception:  # noqa: BLE001
+        return klass.__new__(klass)
+
+
 def make_obj(cls, built):
     from opytimizer.spaces.search import SearchSpace
     from opytimizer.optimizers.pso import PSO
     if cls == 'Node':
-        return Node('n', 'TERMINAL', value=np.array([1.0]))
+        return _try(lambda: Node('n', 'TERMINAL', value=np.array([1.0])), Node)
     if cls == 'Agent':
-        return Agent()
+        return _try(Agent, Agent)
     if cls == 'Function':
-        o = Function(pointer=f1)
+        o = _try(lambda: Function(pointer=f1), Function)
     elif cls == 'Space':
-        o = SearchSpace() if built else Space()
+        o = _try(SearchSpace, SearchSpace) if built else _try(Space, Space)
     elif cls == 'Optimizer':
-        o = PSO() if built else Optimizer()
+        o = _try(PSO, PSO) if built else _try(Optimizer, Optimizer)
     else:
         return object()
-    if built is not None and bool(getattr(o, 'built', None)) != built:
+    if built is not None and o.__dict__.get('_built', None) is not built:
         o.__dict__['_built'] = built
     return o
 
@@ -264,8 +272,10 @@ def in_domain(doms, obj, v):
     return all(in_dom(d, obj, v) for d in doms)
 
 
-def group(v, bounds):
+def group(v, bounds, wants_built=False):
     """coarse class of a probe value, used in finding keys"""
+    if wants_built and not hasattr(v, 'built'):
+        return 'no-built-attr'
     try:
         if is_number(v) and not isinstance(v, (bool, np.bool_)) and any(as_exact(v) == b for b in bounds):
             return 'at-bound'
@@ -321,7 +331,7 @@ def template(cls, name):
     if name == 'Opytimizer':
         from opytimizer.spaces.search import SearchSpace
         from opytimizer.optimizers.pso import PSO
-        return cls(space=SearchSpace(), optimizer=PSO(), function=Function(pointer=f1))
+        return cls(space=make_obj('Space', True), optimizer=make_obj('Optimizer', True), function=make_obj('Function', True))
     return cls()
 
 
@@ -384,6 +394,19 @@ def consts_of(g):
         if x not in res:
             res.append(x)
     return res
+
+
+def doc_consts_of(g):
+    """bounds named by the MESSAGES only (finding keys must not depend on the constants of the code)"""
+    out = []
+    for d in g['doms']:
+        if d[0] == 'cmp':
+            out.append(q(d[2]))
+        elif d[0] == 'between':
+            out += [q(d[1]), q(d[2])]
+        elif d[0] == 'arity':
+            out.append(Fraction(d[1]))
+    return out
 
 
 def dedup(specs):
@@ -458,7 +481,7 @@ def run_case(tpl, g, comp, spec, pre_ok=True):
     else:
         code = 6 if not changed else 9
         stored_abs = ['none']
-    bounds = consts_of(g)
+    bounds = doc_consts_of(g)
     for a in comp:
         w = before.get('_' + a)
         if is_number(w):
@@ -466,7 +489,7 @@ def run_case(tpl, g, comp, spec, pre_ok=True):
                 bounds.append(as_exact(w))
             except (OverflowError, ValueError):
                 pass
-    grp = group(v, [b for b in bounds if isinstance(b, Fraction)])
+    grp = group(v, [b for b in bounds if isinstance(b, Fraction)], any(d[0] == 'built' for d in g['doms']))
     return {'attr': attr, 'gcls': g['cls'], 'comp': comp, 'spec': spec, 'pre_ok': pre_ok, 'out': out, 'exc': exc,
             'member': member, 'stored_is': stored_is, 'changed': changed, 'verdict': verdict, 'group': grp,
             'state_abs': state_abs, 'val_abs': absval(v), 'code': code, 'stored_abs': stored_abs,
@@ -618,6 +641,16 @@ def main():
                 res['ctor'].append({'cls': c['name'], 'out': hlib.exc_kind(ex), 'msg': repr(ex)[:200]})
             hlib.emit(res)
             return
+        if only.get('kind') == 'hyper':
+            try:
+                cls(hyperparams=make(only['spec']))
+                o2 = 'ok'
+            except Exception as ex:  # noqa: BLE001
+                o2 = hlib.exc_kind(ex)
+            res['builds'].append({'cls': c['name'], 'build': only.get('build'), 'dict': None, 'hyper': only['spec'], 'out': o2,
+                                  'verdict': None if o2 == 'TypeError' else 'hyperparams-not-validated', 'code': None})
+            hlib.emit(res)
+            return
         if only.get('kind') == 'build':
             gs = {g['attr']: g for g in guards_of(c['name'])}
             b = [x for x in c['builds'] if x['name'] == only['build']][0]
@@ -663,7 +696,11 @@ def main():
                     res['cases'].append(r)
                 if g['pre'] is not None:
                     for spec in SMALL:
-                        r = run_case(tpl, g, comp, spec, pre_ok=False)
+                        try:
+                            r = run_case(tpl, g, comp, spec, pre_ok=False)
+                        except Exception as ex:  # noqa: BLE001
+                            res['errors'].append({'cls': c['name'], 'attr': g['attr'], 'msg': 'harness failure: %r' % ex})
+                            continue
                         r['cls'] = c['name']
                         res['cases'].append(r)
             # NaN is outside the value universe of the model: probed for the record only
